@@ -53,6 +53,16 @@ impl TryFrom<&str> for Command {
     }
 }
 
+/// Checks whether `name` can be written as a mnemonic of a program header: a
+/// letter (after the asterisk of a common command) followed by letters, digits
+/// and underscores.
+fn is_mnemonic(name: &str) -> bool {
+    let name = name.strip_prefix('*').unwrap_or(name);
+    let mut chars = name.chars();
+    chars.next().is_some_and(|c| c.is_ascii_alphabetic())
+        && chars.all(|c| c.is_ascii_alphanumeric() || c == '_')
+}
+
 impl Command {
     pub fn is_query(&self) -> bool {
         self.query
@@ -69,7 +79,10 @@ impl Command {
                 long_path.push(part.long.clone());
                 new_paths.push(long_path);
 
-                if part.short != part.long {
+                // The short form of a mnemonic without an upper case letter at its start
+                // (`start`, `ch1`, `*idn`) is empty or begins with a digit or an underscore.
+                // No program header can spell that, so it is not a path of its own.
+                if part.short != part.long && is_mnemonic(&part.short) {
                     let mut short_path = path.clone();
                     short_path.push(part.short.clone());
                     new_paths.push(short_path);
